@@ -162,6 +162,7 @@ class World:
     def make_teams(self, *, n=None, m=None, rating_cls=None) -> Ptr:
         b = self.box
         n_len = self._teams_len(*(n or (None, None)))
+        self.n_len = n_len
         m_lo, m_hi = m or b.players
         m_len = Length(("len", L_TEAM, (ivar("T"),)), m_lo, m_hi)
         self.make_rating_object(L_PLAYER, ("T", "P"), (n_len, m_len), rating_cls)
@@ -175,7 +176,9 @@ class World:
     def make_number_list(self, loc: str, *, tag: str, kinds=frozenset({"int", "float", "bool"}), same_len_as_teams=True,
                          length: Optional[Length] = None, witness: Optional[Val] = None, rng: Optional[Interval] = None) -> Ptr:
         if length is None:
-            length = self._teams_len() if same_len_as_teams else Length(("len", loc, ()), 1, INF)
+            length = getattr(self, "n_len", None) or self._teams_len()
+            if not same_len_as_teams:
+                length = Length(("len", loc, ()), 1, INF)
         elem = Num(kinds=kinds, rng=rng if rng is not None else (Interval.top() if self.box.ranges else None),
                    deg=F0 if self.box.degrees else None, prov=frozenset({tag}), sym=("elem", loc, (), ivar("kR")))
         self.state.heap[loc] = Cell(ListObj(Seq(length, elem, "kR", None, witness)), (), (), f"input:{tag.lower()}", None)
@@ -320,7 +323,10 @@ def build_numlist(w: World, cls_name: str, loc: str, tag: str) -> Val:
             "list-of-wrong-length": {"int", "float", "bool"},
         }[cls_name]
         if cls_name == "list-of-wrong-length":
-            p = w.make_number_list(loc, tag=tag, kinds=frozenset(kinds), same_len_as_teams=False)
+            k = getattr(w, "n_len", None)
+            k = k.known() if k is not None else None
+            p = w.make_number_list(loc, tag=tag, kinds=frozenset(kinds), same_len_as_teams=False,
+                                   length=Length(("len", loc, ()), k + 1, INF) if k is not None else None)
             # definitely a different length than teams
             a = ("lenterm", ("len", loc, ()))
             bsym = ("lenterm", ("len", L_TEAMS, ()))
